@@ -26,12 +26,20 @@ func LIB(w io.Writer, n int, weights func(i, j int) int) (err error) {
 	tw := tabwriter.NewWriter(w, 0, 1, 1, ' ', tabwriter.AlignRight)
 	for i := 0; i < n; i++ {
 		for j := 0; j < i; j++ {
-			fmt.Fprintf(tw, "%d\t", weights(i, j))
+			_, err = fmt.Fprintf(tw, "%d\t", weights(i, j))
+			if err != nil {
+				return err
+			}
 		}
-		fmt.Fprint(tw, "0\t")
-		fmt.Fprint(tw, "\n")
+		_, err = fmt.Fprint(tw, "0\t\n")
+		if err != nil {
+			return err
+		}
 	}
-	tw.Flush()
+	err = tw.Flush()
+	if err != nil {
+		return err
+	}
 	_, err = io.WriteString(w, "EOF\n")
 	if err != nil {
 		return err
